@@ -36,8 +36,8 @@ func TestC05(t *testing.T) {
 	runProp(t, &propSpec{
 		id: "C05",
 		profile: &Profile{
-			Name: "C05", MinSteps: 6, MaxSteps: 30, MaxClient: 2, BigData: true, MTU: true,
-			Weights: map[string]int{"Allocate": 4, "Refresh": 2, "CreatePermission": 12, "ChannelBind": 12, "Send": 20, "ChannelData": 20, "PeerData": 30, "Sleep": 2},
+			Name: "C05", MinSteps: 6, MaxSteps: 30, MaxClient: 2, BigData: true, MTU: true, Fragments: []string{"chan", "perm"},
+			Weights: map[string]int{"Allocate": 4, "Refresh": 2, "CreatePermission": 12, "ChannelBind": 12, "Send": 20, "ChannelData": 20, "PeerData": 30, "Sleep": 6},
 		},
 		nontrivial: func(st *Stats, sc *Script) bool {
 			relayed := has(st, "send-authorised") || has(st, "channeldata-authorised") || has(st, "peerdata-via-channel") || has(st, "peerdata-via-indication")
